@@ -56,7 +56,7 @@ const ruleGeneric = "cases are whole simulated executions drawn by pgregory.net/
 
 var props = map[string]propCfg{
 	"C01": {Level: "exploration", QuickRuns: 4000, QuickBud: 22 * time.Second, ThorRuns: 200000, ThorBud: 10 * time.Minute,
-		Required: []string{"callback_raced_completion", "callback_success", "storage_err", "request_deleted", "restart"}},
+		Required: []string{"callback_raced_completion", "callback_success", "storage_err", "request_deleted", "restart", "same_id_exists_in_another_tenant", "storage_error_with_typed_nil_record"}},
 	"C09": {Level: "exploration", QuickRuns: 4000, QuickBud: 22 * time.Second, ThorRuns: 200000, ThorBud: 10 * time.Minute,
 		Rule:     "stage 1 sweeps completely every single structural edit (delete / duplicate / empty each element, delete / empty / duplicate each attribute) of 7 base messages (AuthnRequest redirect / POST signed / redirect signed, LogoutRequest POST / redirect, AttributeQuery unsigned / signed incl. the SOAP envelope) and of the stored metadata of 2 SPs (thorough tier: also every ordered pair of single edits of every base message); stage 2 draws random worlds with corrupted SP metadata, deviating / tampered / raw / torn requests (up to 3 edits per message) under storage faults. Non-trivial: at least one fault or edit fired or two tasks interleaved; distinct by (schedule × outcome) hash",
 		Required: []string{"handler_ran", "sp_metadata_corrupt", "tamper_dropElem", "tamper_dropAttr", "tamper_swap_sigalg", "body_eof_at", "storage_err"}},
@@ -64,17 +64,17 @@ var props = map[string]propCfg{
 		Rule:     "stage 1 enumerates completely: 4 provider configurations × 13 workloads × {no bystander, callback bystander, metadata bystander, warm-up by an earlier callback, warm-up by an earlier metadata request, callback / metadata bystander run up to its own call of the operation the fault hits, callback / metadata bystander run through that call} × every storage call of the workload's trace × every fault kind the property names for that operation (single faults: the returned error in five values), singly and in all pairs (second fault anywhere in the trace as it unfolds after the first); stage 2 draws random fault schedules over random worlds with pgregory.net/rapid. A case is non-trivial when at least one fault fired or at least two tasks were interleaved; distinct = distinct (schedule signature × outcome signature), counted by hash",
 		Required: []string{"storage_err", "storage_nil_record", "storage_key_without_cert", "storage_cert_without_key", "storage_empty_cert", "alg_unusable", "bystander_during_fault", "recovery_request"}},
 	"C02": {Level: "exploration", QuickRuns: 4000, QuickBud: 22 * time.Second, ThorRuns: 200000, ThorBud: 10 * time.Minute,
-		Required: []string{"persisted_pair_checked", "sso_error_reply_target_checked", "callback_target_checked", "callback_after_reregistration", "logout_target_checked", "sp_reregistered", "tamper_field"}},
+		Required: []string{"persisted_pair_checked", "sso_error_reply_target_checked", "callback_target_checked", "callback_after_reregistration", "logout_target_checked", "sp_reregistered", "tamper_field", "request_names_a_respelled_registered_consumer_url"}},
 	"C03": {Level: "exploration", QuickRuns: 4000, QuickBud: 22 * time.Second, ThorRuns: 200000, ThorBud: 10 * time.Minute,
 		Required: []string{"success_assertion_checked", "issueinstant_checked_at_exact_instant", "advance_while_parked", "key_rotated"}},
 	"C04": {Level: "exploration", QuickRuns: 4000, QuickBud: 22 * time.Second, ThorRuns: 200000, ThorBud: 10 * time.Minute,
-		Required: []string{"enveloped_signature_checked", "redirect_signature_checked", "metadata_signature_checked", "key_rotated"}},
+		Required: []string{"enveloped_signature_checked", "redirect_signature_checked", "metadata_signature_checked", "key_rotated", "torn_key_record_handed_out"}},
 	"C05": {Level: "exploration", QuickRuns: 4000, QuickBud: 22 * time.Second, ThorRuns: 200000, ThorBud: 10 * time.Minute,
 		Required: []string{"sso_accepted", "accepted_while_signing_required", "accepted_with_valid_signature", "signed_request_rejected", "tamper_wrap", "tamper_sig_flip", "tamper_strip_sig", "sp_reregistered"}},
 	"C06": {Level: "exploration", QuickRuns: 4000, QuickBud: 22 * time.Second, ThorRuns: 200000, ThorBud: 10 * time.Minute,
-		Required: []string{"sso_accepted", "nonconformant_rejected", "now_equals_notonorafter", "now_equals_notbefore", "sp_skew", "delay"}},
+		Required: []string{"sso_accepted", "nonconformant_rejected", "now_equals_notonorafter", "now_equals_notbefore", "sp_skew", "delay", "tamper_b64_garbage", "tamper_deflate_cut"}},
 	"C07": {Level: "exploration", QuickRuns: 4000, QuickBud: 22 * time.Second, ThorRuns: 200000, ThorBud: 10 * time.Minute,
-		Required: []string{"conformant_sso_accepted", "conformant_slo_accepted", "conformant_attrq_accepted"}},
+		Required: []string{"conformant_sso_accepted", "conformant_slo_accepted", "conformant_attrq_accepted", "accepted_with_cdata_text", "accepted_with_character_references", "accepted_with_comment_inside_text", "accepted_post_base64_with_line_breaks", "soap_query_namespaces_declared_on_an_ancestor", "request_content_type_variant"}},
 	"C11": {Level: "exploration", QuickRuns: 4000, QuickBud: 22 * time.Second, ThorRuns: 200000, ThorBud: 10 * time.Minute,
 		Required: []string{"metadata_checked", "certificate_endpoint_checked", "issuer_compared_with_entityid", "probe_sso", "probe_slo", "probe_attr", "want_signed_compared", "want_signed_advertised", "key_rotated"}},
 	"C12": {Level: "exploration", QuickRuns: 4000, QuickBud: 22 * time.Second, ThorRuns: 200000, ThorBud: 10 * time.Minute,
@@ -82,7 +82,7 @@ var props = map[string]propCfg{
 	"C13": {Level: "exploration", QuickRuns: 4000, QuickBud: 22 * time.Second, ThorRuns: 200000, ThorBud: 10 * time.Minute,
 		Required: []string{"logout_success", "logout_failure", "now_equals_notonorafter", "now_equals_issueinstant", "sp_reregistered", "sp_deleted", "sp_skew"}},
 	"C15": {Level: "exploration", QuickRuns: 4000, QuickBud: 25 * time.Second, ThorRuns: 200000, ThorBud: 12 * time.Minute, Race: true,
-		Required: []string{"request_overlapped_another", "message_id_checked", "overlap_window", "shadow_compared", "shadow_compared_callback", "shadow_compared_attrq", "shadow_compared_metadata"}},
+		Required: []string{"request_overlapped_another", "message_id_checked", "overlap_window", "shadow_compared", "shadow_compared_callback", "shadow_compared_attrq", "shadow_compared_metadata", "reply_attributes_compared_with_stored_record", "storage_passed_its_own_value_slice"}},
 	"C08": {Level: "exploration", QuickRuns: 4000, QuickBud: 22 * time.Second, ThorRuns: 200000, ThorBud: 10 * time.Minute,
 		Required: []string{"sso_persisted", "sso_not_persisted", "storage_err", "body_error_at"}},
 }
